@@ -455,6 +455,15 @@ func (g *tsrun) NamespaceCase() tsCase {
 		}
 	}
 	tail := fmt.Sprintf("$(%d, N);\n", g.probe())
+	if !strings.Contains(js.String(), "(function (N)") {
+		tail = fmt.Sprintf("$(%d, typeof N);\n", g.probe()) // a namespace that is never instantiated has no value (using it is a TypeScript error)
+		js.Reset()
+		js.WriteString(export + "var N;\n")
+		if export != "" {
+			js.Reset() // nothing at all is exported then
+			tail = "$(0, 0);\n"
+		}
+	}
 	ts.WriteString(tail)
 	js.WriteString(tail)
 	c.TS["/main.ts"] = ts.String()
